@@ -4,7 +4,10 @@ import Poulpy.Lemmas.GadgetPhase
 import Poulpy.Lemmas.GadgetSum
 import Poulpy.Lemmas.GadgetAccum
 import Poulpy.Lemmas.PackAlg
+import Poulpy.Lemmas.GadgetExec
+import Poulpy.Lemmas.AutoMul
 import Poulpy.Lemmas.PackGalois
+import Poulpy.Lemmas.PackPhase
 import Poulpy.Model.Core.Pack
 import Poulpy.Props.C09
 
@@ -157,6 +160,44 @@ theorem trace_galois_elements (n i : Nat) (K : Nat) (hK : K ≤ 64) (hn : cyclot
 example : traceGalois 8 2 = .ok 9 := by
   rw [trace_galois_elements 8 2 4 (by norm_num) (by rfl) (by norm_num)]; rfl
 
+/-! ### The automorphism is a ring homomorphism: `σ_g` of the phase -/
+
+/-- **multiplicativity of the Galois automorphism for the exact negacyclic product**: `σ_g(a ⋆ b) = σ_g(a) ⋆ σ_g(b)`
+(`σ_g` = `znxAutomorphismW id g`, the exact automorphism; proved by transfer: `σ_g` is the ring endomorphism of `ℤ[X]/(X^N+1)`
+induced by `X ↦ X^g`) -/
+theorem automorphism_mul (g : Int) (a b : Poly) (h : a.length = b.length) (hn : 0 < a.length) (hg : GalOk g a.length) :
+    AutoMul.σ g (Hal.negMul a b) = Hal.negMul (AutoMul.σ g a) (AutoMul.σ g b) := AutoMul.auto_negMul_hal g a b h hn hg
+
+example : AutoMul.σ 3 (Hal.negMul [1, 2, 3, 4] [5, -6, 7, 8]) = Hal.negMul (AutoMul.σ 3 [1, 2, 3, 4]) (AutoMul.σ 3 [5, -6, 7, 8]) := by decide
+
+/-- the model's `vec_znx_automorphism` (`i64` wrapping negation) is the exact `σ_g` on in-range digits -/
+theorem automorphism_exact_on_i64 (g : Int) (a : Poly) (h : ∀ x ∈ a, -(2 ^ 63) < x ∧ x < 2 ^ 63) :
+    znxAutomorphism g a = AutoMul.σ g a := AutoMul.auto_w64_eq_id g a h
+
+example : znxAutomorphism 3 [1, 2, 3, 4] = AutoMul.σ 3 [1, 2, 3, 4] := by decide
+
+/-- **`automorphism_phase`**: applying `σ_g` to every column of a ciphertext gives a ciphertext whose phase under `σ_g(secret)` is
+`σ_g(phase)` -/
+theorem automorphism_phase (N : Nat) (g : Int) (hN : 0 < N) (hg : GalOk g N) (sk cs : List Poly)
+    (hsk : Ks.AllLen N sk) (hcs : Ks.AllLen N cs) :
+    phaseRow (sk.map (AutoMul.σ g)) (cs.map (AutoMul.σ g)) = AutoMul.σ g (phaseRow sk cs) :=
+  AutoMul.automorphism_phase N g hN hg sk cs hsk hcs
+
+example : phaseRow ([[0, 1, 0, 0]].map (AutoMul.σ 3)) ([[1, 2, 3, 4], [0, 0, 1, 0]].map (AutoMul.σ 3))
+    = AutoMul.σ 3 (phaseRow [[0, 1, 0, 0]] [[1, 2, 3, 4], [0, 0, 1, 0]]) := by decide
+
+/-- **automorphism = key-switch ∘ (X → X^g)** at the level of phases: a ciphertext that decrypts to `φ` under `σ_{g⁻¹}(s)` (what
+the key-switch with the automorphism key of `g` produces) decrypts, after `vec_znx_automorphism(g)` on its columns, to `σ_g(φ)`
+under `s` (`hinv` is `autokey_secret_roundtrip`) -/
+theorem automorphism_phase_key (N : Nat) (g gInv : Int) (hN : 0 < N) (hg : GalOk g N) (sk sk' cs : List Poly)
+    (hsk : Ks.AllLen N sk) (hcs : Ks.AllLen N cs) (hsk' : sk' = sk.map (AutoMul.σ gInv))
+    (hinv : ∀ s ∈ sk, AutoMul.σ g (AutoMul.σ gInv s) = s) :
+    phaseRow sk (cs.map (AutoMul.σ g)) = AutoMul.σ g (phaseRow sk' cs) :=
+  AutoMul.automorphism_phase_key N g gInv hN hg sk sk' cs hsk hcs hsk' hinv
+
+example : phaseRow [[0, 1, 0, 0]] ([[1, 2, 3, 4], [0, 0, 1, 0]].map (AutoMul.σ 3))
+    = AutoMul.σ 3 (phaseRow ([[0, 1, 0, 0]].map (AutoMul.σ 3)) [[1, 2, 3, 4], [0, 0, 1, 0]]) := by decide
+
 /-! ## Layer A — the executable product -/
 
 /-- **The vector-matrix product commutes with the phase, for every `limb_offset`.**  `d` = the result
@@ -298,21 +339,50 @@ example : ∃ prod : Buf,
     { base2k := 4, dsize := 1, p := 0, mat := exKey } rfl rfl (by decide) (zeroBuf_WF 2 2 2) rfl rfl (by decide)
     (entry_length exKey 2 rfl (by decide))
 
-/- FULL STATEMENT (last step not proved): `keyswitch_phase` for `dsize > 1` in the vocabulary of `Gadget.acc`.
-   For every key with `2 ≤ dsize`, `dnum·dsize ≤ key.size`, every well-formed `res` (max_size = key.size) and
-   input `a`, for all `l < key.size`:
-     phaseRow sk (bufRow (gglweProductDft res a key) l)
-       = Σ_{di<dsize} Σ_{r<rowsOf a.size dsize dnum di} Σ_{i<rank_in}
-           [l+di < key.size ∧ l < szOf key.size dsize di]  a_i[limbIdx dsize r di] ⋆ phaseRow sk (rowLimb key.mat (r·rank_in+i) (l+di)).
-   PROVED below, on the executable functions, for all inputs:
-     * `product_accum_dsize_gt1` / `keyswitch_phase_dsize_gt1`: the result (and its phase) is pass 0's product on the limbs
-       `< szOf 0` plus the later passes' products (`limb_offset = di`) on the limbs `< szOf di`;
-     * `vmp_phase_commutes` / `product_pass_phase_partial`: the phase of a pass's product is `Σ_j ai_j ⋆ phase(row j, limb l+di)`;
-     * `product_pass_selection_partial` / `dft_select_limbIdx`: `ai` limb `r`, column `i` is `a_i[limbIdx dsize r di]` (zero if absent).
-   NOT proved: the purely notational last step that rewrites these `List.foldl polyAdd` / `sumPolys` sums over
-   `j = r·rank_in + i` as the `Finset` sums of `Gadget.acc` (which needs the coefficient lists packaged as a `CommRing`,
-   e.g. by transfer to `AdjoinRoot (X^N+1)`); `gadget_identity` is therefore applied to the executable model by reading
-   the three theorems above side by side, not by a single Lean term. -/
+/-- **`keyswitch_phase`** — ONE theorem about the executed `gglwe_product_dft`, for every digit size `dsize ≥ 1`: in the ring
+`R N = ℤ[X]/(X^N+1)` (coefficient lists of length `N` through `ι = AdjoinRoot.mk ∘ toPoly`, which turns `Hal.negMul` into the ring
+product and `Hal.polyAdd` into the sum), the phase under any secret of limb `l` of the product is the abstract accumulation
+`Gadget.acc` of `gadget_identity`, summed over the input columns, with `a_i[m]` = limb `m` of input column `i` and
+`φ_i r l` = phase of limb `l` of key row `r`, input column `i`. -/
+theorem keyswitch_phase (N : Nat) (sk : List Poly) (res a : Buf) (key : Key) (l : Nat)
+    (hD : 1 ≤ key.dsize) (hN : 0 < N) (hres : res.WF) (hmax : res.maxSize = key.mat.size)
+    (hsize : res.size = key.mat.size) (hcols : res.cols = key.mat.colsOut) (hc0 : 0 < key.mat.colsOut)
+    (hresn : res.n = N) (han : a.n = N) (hacols : a.cols = key.mat.colsIn)
+    (hM : ∀ j q, (key.mat.entry j q).length = N) :
+    Ks.ι N (phaseRow sk ((List.range res.cols).map (fun c => limbOr0 N ((gglweProductDft res a key).act c) l)))
+      = ∑ i ∈ Finset.range key.mat.colsIn,
+          Gadget.acc key.mat.size key.dsize key.mat.rows a.size (Ks.inLimb N a i) (Ks.keyPhase N sk key.mat i) l :=
+  Ks.keyswitch_phase N sk res a key l hD hN hres hmax hsize hcols hc0 hresn han hacols hM
+
+/-- **`keyswitch_value`** — the gadget identity applied to the executed product: if key row `r`, input column `i` has phase value
+`s_i·β^{S−(r+1)·dsize} + E_{i,r}` under the target secret, the value of the product's phase is
+`Σ_i (s_i·usedVal(a_i) + Σ_r digit_{i,r}·E_{i,r} − dropped_i − β^S·head_i)`: the key-switch preserves the phase up to the explicit
+gadget error, for every digit size, digit count, ranks and limb counts — shape independence included (`used_value_is_input_value`). -/
+theorem keyswitch_value (N : Nat) (sk : List Poly) (res a : Buf) (key : Key) (β : Ks.R N) (s : ℕ → Ks.R N) (E : ℕ → ℕ → Ks.R N)
+    (hD : 1 ≤ key.dsize) (hN : 0 < N) (hres : res.WF) (hmax : res.maxSize = key.mat.size)
+    (hsize : res.size = key.mat.size) (hcols : res.cols = key.mat.colsOut) (hc0 : 0 < key.mat.colsOut)
+    (hresn : res.n = N) (han : a.n = N) (hacols : a.cols = key.mat.colsIn)
+    (hM : ∀ j q, (key.mat.entry j q).length = N)
+    (hS : key.mat.rows * key.dsize ≤ key.mat.size)
+    (hkey : ∀ i, i < key.mat.colsIn → ∀ r, r < key.mat.rows →
+      Gadget.val β key.mat.size (Ks.keyPhase N sk key.mat i r) = s i * β ^ (key.mat.size - (r + 1) * key.dsize) + E i r) :
+    ∑ l ∈ Finset.range key.mat.size,
+        Ks.ι N (phaseRow sk ((List.range res.cols).map (fun c => limbOr0 N ((gglweProductDft res a key).act c) l)))
+          * β ^ (key.mat.size - 1 - l)
+      = ∑ i ∈ Finset.range key.mat.colsIn,
+          (s i * Gadget.usedVal β key.mat.size key.dsize key.mat.rows a.size (Ks.inLimb N a i)
+            + ∑ r ∈ Finset.range key.mat.rows, Gadget.digit β key.dsize key.mat.rows a.size (Ks.inLimb N a i) r * E i r
+            - Gadget.dropped β key.mat.size key.dsize key.mat.rows a.size (Ks.inLimb N a i) (Ks.keyPhase N sk key.mat i)
+            - β ^ key.mat.size * Gadget.head β key.dsize key.mat.rows a.size (Ks.inLimb N a i) (Ks.keyPhase N sk key.mat i)) :=
+  Ks.keyswitch_value N sk res a key β s E hD hN hres hmax hsize hcols hc0 hresn han hacols hM hS hkey
+
+/-- non-vacuity: the `dsize = 3`, `N = 1` key of `Ks.AccumExample` with a garbage-filled result buffer meets every hypothesis -/
+example (l : Nat) :
+    Ks.ι 1 (phaseRow [] ((List.range 1).map (fun c => limbOr0 1 ((gglweProductDft AccumExample.dirty3 AccumExample.exA3 AccumExample.exKey3).act c) l)))
+      = ∑ i ∈ Finset.range 1, Gadget.acc 4 3 1 1 (Ks.inLimb 1 AccumExample.exA3 i) (Ks.keyPhase 1 [] AccumExample.exKey3.mat i) l :=
+  keyswitch_phase 1 [] AccumExample.dirty3 AccumExample.exA3 AccumExample.exKey3 l (by decide) (by decide) AccumExample.dirty3_WF rfl rfl rfl
+    (by decide) rfl rfl rfl (entry_length AccumExample.exKey3.mat 1 rfl (by decide))
+
 
 /-- **`product_pass_phase_partial`**: pass `di > 0` of the `dsize > 1` branch writes into `res_dft_tmp`
 the vector-matrix product with `limb_offset = di`; its phase at limb `l` is
@@ -590,6 +660,67 @@ theorem pack_galois_later (logN i j : ℕ) (h1 : i < j) (h2 : j < logN) :
 
 example : (2 ^ (4 - 1 - 1) * 5 ^ (2 ^ (1 - 1))) % 2 ^ (4 + 1) = (2 ^ (4 - 1 - 1) + 2 ^ 4) % 2 ^ (4 + 1) := by decide
 example : (2 ^ (4 - 1 - 0) * 5 ^ (2 ^ (2 - 1))) % 2 ^ (4 + 1) = (2 ^ (4 - 1 - 0)) % 2 ^ (4 + 1) := by decide
+
+/-! ### the executed packing / trace steps are the abstract ones (data flow, under the ideal-operation contract)
+
+`Ks.IdealOps c ph N big128 keyOf`: the phase map `ph` turns each elementary operation used by `pack_internal` / `combine` /
+`glwe_trace_assign` into its noise-free meaning (`glwe_rotate` = `rot`, `glwe_rsh(1)` = `half`, add / sub exact,
+`glwe_normalize_assign` = identity, the key-switching automorphisms of level `i` = `sig i`).  The contract holds exactly for the
+linear operations (C02) and up to the gadget noise (`keyswitch_value`, `automorphism_phase_key`) and one rounding unit (C08) for
+`rsh` and the automorphisms; what is proved here is that the *code* composes them as the abstract step does — operand order,
+rotation amounts, signs. -/
+
+/-- **`mergeStep` = `Pack.merge` on the phases**, in its three branches (both slots / only lower / only upper, an absent slot = 0) -/
+theorem pack_merge_step_phase {M : Type*} [AddCommGroup M] (c : Pack.Contract M) (ph : Ct → M) (N : Nat) (big128 : Bool)
+    (keyOf : Nat → Key) (H : Ks.IdealOps c ph N big128 keyOf) (i : Nat)
+    (ht : c.t i = ((2 ^ (log2Nat N - i - 1) : Nat) : Int)) (a b : Option Ct) (sh r : Ct) (hab : a.isSome ∨ b.isSome)
+    (h : mergeStep big128 N i (keyOf i) a b sh = .ok (some r)) :
+    ph r = Pack.merge c i ((a.map ph).getD 0) ((b.map ph).getD 0) :=
+  Ks.mergeStep_phase c ph N big128 keyOf H i ht a b sh r hab h
+
+/-- the branch a sign flip would break: only the upper slot present ⇒ `X^t b/2 − σ(X^t b/2)` -/
+theorem pack_merge_step_hi_phase {M : Type*} [AddCommGroup M] (c : Pack.Contract M) (ph : Ct → M) (N : Nat) (big128 : Bool)
+    (keyOf : Nat → Key) (H : Ks.IdealOps c ph N big128 keyOf) (i : Nat)
+    (ht : c.t i = ((2 ^ (log2Nat N - i - 1) : Nat) : Int)) (b sh r : Ct)
+    (h : mergeStep big128 N i (keyOf i) none (some b) sh = .ok (some r)) : ph r = Pack.stepHi c i (ph b) :=
+  Ks.mergeStep_hi_phase c ph N big128 keyOf H i ht b sh r h
+
+/-- the contract is satisfiable (degenerate witness: the zero phase; the non-degenerate content is the tie + oracle) -/
+example : Ks.IdealOps Pack.model (fun _ => (0 : ℚ × ℚ)) 8 false (fun _ => exKey3) :=
+  ⟨by intros; simp, by intros; simp, by intros; simp, by intros; simp, by intros; simp, by intros; simp, by intros; simp,
+   by intros; simp, by intros; simp, by intros; simp⟩
+
+/-- **trace = composition, by induction on the levels**: the executed loop of `glwe_trace_assign` (`glwe_rsh(1)` then
+`glwe_automorphism_add_assign` with the key of level `i`) maps the phase to `P_{i_k}(… P_{i_1}(φ))`, `P_i(x) = x/2 + σ_i(x/2)` -/
+theorem trace_is_composition {M : Type*} [AddCommGroup M] (c : Pack.Contract M) (ph : Ct → M) (big128 : Bool) (keys : List Key)
+    (hrsh : ∀ x y, glweRsh 1 x = .ok y → ph y = c.half (ph x))
+    (hauto : ∀ i x key p y, traceGalois x.n i = .ok p → keys.find? (fun k => k.p == p) = some key →
+      automorphismFused .add big128 (zeroBuf x.n (x.rank + 1) key.size) x.base2k x.size x.rank x key = .ok y →
+      (y.n = x.n ∧ ph y = ph x + c.sig i (ph x)))
+    (hn : ∀ x y, glweRsh 1 x = .ok y → y.n = x.n)
+    (levels : List Nat) (x r : Ct) (h : traceLoop big128 keys x levels = .ok r) :
+    ph r = Ks.traceAbs c levels (ph x) :=
+  Ks.traceLoop_phase c ph big128 keys hrsh hauto hn levels x r h
+
+example : traceLoop false [] (mkCt 4 8 []) [] = .ok (mkCt 4 8 []) := rfl
+
+/-- **partial trace**: a phase `u + Σ v_k` with `u` fixed by the automorphisms of all the levels run and every `v_k` killed
+(negated at some level after being fixed by the earlier ones: `partial_trace_kills`) is mapped to `u` — the coefficients at
+multiples of the gap survive with scale 1, the others vanish -/
+theorem partial_trace {M : Type*} [AddCommGroup M] (c : Pack.Contract M) (levels : List Nat) (u : M) (vs : List M)
+    (hu : ∀ i ∈ levels, c.sig i u = u) (hv : ∀ v ∈ vs, Ks.traceAbs c levels v = 0) :
+    Ks.traceAbs c levels (u + vs.sum) = u := Ks.traceAbs_decomp c levels u vs hu hv
+
+theorem partial_trace_kills {M : Type*} [AddCommGroup M] (c : Pack.Contract M) (pre : List Nat) (j : Nat) (post : List Nat) (x : M)
+    (hpre : ∀ i ∈ pre, c.sig i x = x) (hj : c.sig j x = -x) : Ks.traceAbs c (pre ++ j :: post) x = 0 :=
+  Ks.traceAbs_killed c pre j post x hpre hj
+
+/-- in `ℚ[X]/(X²+1)`: the trace over level 0 keeps the constant `(a, 0)` and kills `(0, b) = b·X` (`σ_{−1}(X) = −X`) -/
+example (a b : ℚ) : Ks.traceAbs Pack.model [0] ((a, 0) + [((0 : ℚ), b)].sum) = (a, 0) :=
+  partial_trace Pack.model [0] (a, 0) [(0, b)]
+    (by intro i hi; simp at hi; subst hi; simp [Pack.model, Pack.Model.conj])
+    (by intro v hv; simp at hv; subst hv
+        exact partial_trace_kills Pack.model [] 0 [] (0, b) (by simp) (by simp [Pack.model, Pack.Model.conj]))
 
 /-- Layer A: the packing tree only uses the keys of the levels it runs — with no input at all `glwe_pack` panics
 (`a.keys().max().unwrap()`), and an input beyond the ring degree is refused -/
